@@ -237,6 +237,14 @@ fn build(tier: Tier) -> Box<dyn Check> {
             ("x is 5 plus 2\nsay x\n", "7\n"),
             ("x is -5\nsay x\n", "-5\n"),
             ("x is - 5\nsay x\n", "-5\n"),
+            ("x is -2 times 3\nsay x\n", "-6\n"),
+            ("put 4 into y\nx is -1 plus y\nsay x\n", "3\n"),
+            ("x is -1 is less than 0\nsay x\n", "true\n"),
+            ("x is -1 and true\nsay x\n", "true\n"),
+            ("rock x with -2 times 3\nsay x at 0\n", "-6\n"),
+            ("x is nothing is nothing\nsay x\n", "true\n"),
+            ("x is 5 over 2\nsay x\n", "2.5\n"),
+            ("x is \"a\" plus \"b\"\nsay x\n", "ab\n"),
             ("x is \"abc def\"\nsay x\n", "abc def\n"),
             ("x is 1.5 times 2\nsay x\n", "3\n"),
             ("x is nothing plus 1\nsay x\n", "1\n"),
